@@ -65,6 +65,15 @@ def bit_pairs_split(wide: list[Atom]):
             yield (a, z, b, tail)
 
 
+def sliced_blocks(wide: list[Atom]):
+    """Blocks without any struct-packed member (char, wchar, 24/48-bit integers are byte-sliced by the compiled reader) combined with zero-length
+    arrays and void: the generated block has no unpack line."""
+    pool = [a for a in wide if a.name in ("char", "wchar", "uint24", "int48", "char[2]", "uint32[0]", "void", "uint24[2]")]
+    for k in (1, 2, 3):
+        for seq in itertools.product(pool, repeat=k):
+            yield ("!nolead", *names(seq))
+
+
 def nolead_defs(atoms: list[Atom], k: int):
     """Definitions *without* the leading uint8 n0 (the first field is the atom itself): first-field behaviour."""
     for seq in product_defs([a for a in atoms if "n0" not in a.name], k):
@@ -110,11 +119,13 @@ def space(tier: str, which: str):
             yield from emit(long_run(C, 11, 12, triples=False))
             yield from emit(bit_pairs_with_tail(W))
             yield from emit(bit_pairs_split(W))
+            yield from emit(sliced_blocks(W))
             yield from emit(nolead_defs(W, 1))
             yield from emit(nolead_defs(C, 2))
         else:
             yield from emit(bit_pairs_with_tail(W))
             yield from emit(bit_pairs_split(W))
+            yield from emit(sliced_blocks(W))
             yield from emit(nolead_defs(W, 2))
             yield from emit(nolead_defs(C, 3))
             yield from emit(product_defs(W, 2))
